@@ -192,6 +192,7 @@ class Harness:
     no_checks: list = field(default_factory=list)   # e.g. ["signed-overflow"] -> --no-signed-overflow-check
     replay_libs: list = field(default_factory=list)
     extra_srcs: list = field(default_factory=list)  # additional TUs (repo-relative or absolute) linked in
+    allow_nobody: list = field(default_factory=list)  # functions deliberately left without body (nondet result)
 
 
 @dataclass
@@ -335,6 +336,7 @@ def run_harness(ctx, h):
     wit_total = wit_failed = 0
     unwind_fail = []
     unknown = []
+    nobody = []
     for r in results:
         desc = r.get("description", "")
         st = r.get("status")
@@ -352,6 +354,11 @@ def run_harness(ctx, h):
         item = dict(property=r["property"], description=desc, status=st, file=sl.get("file", ""),
                     line=sl.get("line", ""), function=sl.get("function", ""),
                     cls=sl.get("propertyClass", ""))
+        if desc.startswith("no body for callee"):
+            fn = desc.split()[-1]
+            if fn not in h.allow_nobody:
+                nobody.append(fn)
+            continue
         if st != "FAILURE":
             unknown.append(item)
         elif "unwinding assertion" in desc or item["cls"] == "unwind":
@@ -359,7 +366,10 @@ def run_harness(ctx, h):
         else:
             res.failed.append(item)
     res.witness_ok = wit_total > 0 and wit_failed == wit_total
-    if unwind_fail:
+    if nobody:
+        # a reachable call without a body silently returns nondet: never accept that implicitly
+        res.status, res.note = "error", "reachable functions without body (add the real source or an explicit stub): " + ",".join(sorted(set(nobody)))
+    elif unwind_fail:
         res.status = "bound"
         res.note = "unwinding assertion failed: " + "; ".join(
             "%s@%s:%s" % (u["property"], u["file"], u["line"]) for u in unwind_fail[:4])
@@ -655,3 +665,41 @@ def run_property(pid, harnesses, tier, seed, level="model_checking", assumptions
     if broken or inconclusive:
         return 2
     return 0
+
+
+# --------------------------------------------------------------------------
+# native stage: image dumper
+# --------------------------------------------------------------------------
+import threading
+_tool_lock = threading.Lock()
+
+
+def native_tool(ctx, tool, scale_defs=()):
+    """build harness/native/<tool>.c against the scratch native libyara (built with scale_defs)"""
+    key = "tool_%s_%s" % (tool, hashlib.md5(" ".join(scale_defs).encode()).hexdigest()[:8])
+    with _tool_lock:
+        exe = os.path.join(ctx.scratch.sub("tools"), key)
+        if os.path.exists(exe):
+            return exe
+        lib = ctx.native_lib(tuple(scale_defs), name="native_" + hashlib.md5(" ".join(scale_defs).encode()).hexdigest()[:8])
+        cmd = ["gcc", "-O1", "-g", "-w", "-std=gnu99"] + repo_defines() + list(scale_defs) + repo_includes() + \
+              [os.path.join(HARNESS, "native", tool + ".c"), lib, "-o", exe] + NATIVE_LIBS
+        rc, out, err, _, _ = sh(cmd, timeout=600)
+        if rc != 0:
+            raise RuntimeError("building %s failed: %s" % (tool, err[-2000:]))
+        return exe
+
+
+def dump_image(ctx, outdir, prefix, rules_text, scale_defs=(), fname=None, externals=()):
+    """compile rules_text with the real compiler (native stage) and write <outdir>/<fname> (typed C image)"""
+    exe = native_tool(ctx, "vfdump", scale_defs)
+    fname = fname or ("img_%s.h" % prefix.rstrip("_").lower())
+    rf = os.path.join(outdir, fname + ".yar")
+    with open(rf, "w") as f:
+        f.write(rules_text)
+    rc, out, err, _, _ = sh([exe, prefix, rf] + list(externals), timeout=120)
+    if rc != 0:
+        raise RuntimeError("vfdump failed (rc=%s) on rules %r: %s" % (rc, rules_text[:200], err[-1000:]))
+    with open(os.path.join(outdir, fname), "w") as f:
+        f.write(out)
+    return out
